@@ -390,6 +390,15 @@ func Adversarial(shard, nshard int, maxTuples int, out io.Writer) (AdvStats, err
 
 				outc := advCall(recv, meth, args, mt.IsVariadic())
 				if outc == "" {
+					// a call that returned may still have left a lock behind: the same instance must answer a
+					// follow-up query (Stat of the root / Stat of the file) as well
+					outc = advProbe(recv)
+					if outc != "" {
+						outc = "AFTER THE CALL RETURNED, " + outc
+					}
+				}
+
+				if outc == "" {
 					st.Returned++
 
 					continue
@@ -478,3 +487,44 @@ func advCall(recv reflect.Value, meth reflect.Method, args []reflect.Value, vari
 }
 
 var _ = tyError
+
+// advProbe asks the receiver a harmless question after a call: a lock the call forgot to release makes it fail.
+func advProbe(recv reflect.Value) string {
+	if !recv.IsValid() || ((recv.Kind() == reflect.Pointer || recv.Kind() == reflect.Interface) && recv.IsNil()) {
+		return ""
+	}
+
+	done := make(chan string, 1)
+
+	go func() {
+		defer func() {
+			if r := recover(); r != nil {
+				if r == errDeadlock {
+					done <- "a follow-up call finds a lock still held (DEADLOCK)"
+
+					return
+				}
+
+				done <- ""
+			}
+		}()
+
+		switch x := recv.Interface().(type) {
+		case avfs.VFS:
+			_, _ = x.Stat("/")
+			_, _ = x.ReadDir("/")
+			_, _ = x.Stat("/w/d/f")
+		case avfs.File:
+			_, _ = x.Stat()
+		}
+
+		done <- ""
+	}()
+
+	select {
+	case r := <-done:
+		return r
+	case <-time.After(10 * time.Second):
+		return "a follow-up call does not return (HANG)"
+	}
+}
